@@ -204,7 +204,23 @@ class Interp:
             return ("cmp", ast.unparse(e)[:80])
         if isinstance(e, ast.Lambda):
             return ("closure", e, dict(env))
-        if isinstance(e, (ast.ListComp, ast.GeneratorExp, ast.SetComp)):
+        if isinstance(e, (ast.ListComp, ast.GeneratorExp, ast.SetComp, ast.DictComp)) and len(e.generators) == 1 and not e.generators[0].ifs:
+            g = e.generators[0]
+            it = self.ev(g.iter, env, d + 1)
+            if it[0] == "mcall" and it[1] == "items" and it[2][0] == "dict":
+                it = ("tuple", tuple(("tuple", (k, v)) for k, v in it[2][1]))
+            if it[0] in ("tuple", "list") and len(it[1]) <= MAX_UNROLL:
+                items = []
+                for item in it[1]:
+                    env2 = dict(env)
+                    self.bind(g.target, item, env2)
+                    if isinstance(e, ast.DictComp):
+                        items.append((self.ev(e.key, env2, d + 1), self.ev(e.value, env2, d + 1)))
+                    else:
+                        items.append(self.ev(e.elt, env2, d + 1))
+                return ("dict", tuple(items)) if isinstance(e, ast.DictComp) else ("tuple", tuple(items))
+            return ("comp", ast.unparse(e)[:60])
+        if isinstance(e, (ast.ListComp, ast.GeneratorExp, ast.SetComp, ast.DictComp)):
             return ("comp", ast.unparse(e)[:60])
         if isinstance(e, ast.Call):
             return self.call(e, env, d)
@@ -219,6 +235,14 @@ class Interp:
                 env[a.id] = ("mutable", env[a.id])
         args = [self.ev(a, env, d + 1) for a in e.args if not isinstance(a, ast.Starred)]
         kw = {k.arg: self.ev(k.value, env, d + 1) for k in e.keywords if k.arg}
+        for k in e.keywords:
+            if k.arg is None:                   # **mapping: a constant-key dict (display, dict(...), comprehension over a constant sequence)
+                m = self.ev(k.value, env, d + 1)
+                if m[0] == "dict" and all(kk[0] == "const" and isinstance(kk[1], str) for kk, _v in m[1]):
+                    kw.update({kk[1]: v for kk, v in m[1]})
+                else:
+                    self.incomplete.append(f"line {e.lineno}: **{ast.unparse(k.value)[:30]} not resolved")
+                    kw["**"] = m
         name = dotted(f)
         if isinstance(f, ast.Name):
             if f.id == "setattr" and len(e.args) == 3:
@@ -226,6 +250,8 @@ class Interp:
                 return ("const", None)
             if f.id in ("str", "int", "float", "bool"):
                 return (f.id, args[0]) if len(args) == 1 else ("const", {"str": "", "int": 0, "float": 0.0, "bool": False}[f.id])
+            if f.id == "dict" and not e.args and all(k.arg for k in e.keywords):
+                return ("dict", tuple((("const", k), v) for k, v in kw.items()))
             if f.id in ("len", "isinstance", "hasattr", "callable", "any", "all", "sorted", "list", "tuple", "dict", "set", "next", "iter",
                         "getattr", "enumerate", "zip", "range", "min", "max", "print", "repr", "type"):
                 if f.id in ("list", "tuple") and len(args) == 1 and args[0][0] in ("tuple", "list"):
@@ -287,7 +313,7 @@ class Interp:
         self._new += 1
         obj = ("new", cls, self._new)
         for k, v in kw.items():
-            self.store(obj, ("const", k), v, node, env)
+            self.store(obj, ("const", k) if k != "**" else ("?", "**kwargs"), v, node, env)
         return obj
 
     def inline(self, fn, closure_env, args, kw, node, method):
